@@ -4,7 +4,9 @@ violation messages. See DESIGN.md 3.4-3.6 and appendix B for the op / observatio
 from gsepy import *
 
 L6A, L6B, L3A, L3B = "6:010203040506", "6:0a0b0c0d0e0f", "3:aabbcc", "3:112233"
-LABELS = [L6A, L6B, L3A, L3B, "B"]
+L3Z = "3:000000"    # legal (only the 6-byte zero label is reserved); a seeded change rejecting it went unnoticed without it
+L6N = "6:000000000001"   # almost zero: legal
+LABELS = [L6A, L6B, L3A, L3B, "B", L3Z, L6N]
 ZERO6 = "6:000000000000"
 PTYPES_OK = [0x0600, 0x0800, 0x86DD, 0xFFFF, 0x0000, 0x0081, 0x00FF]
 PTYPES_BAD = [0x0100, 0x0101, 0x0300, 0x05FF]
@@ -176,6 +178,10 @@ def fam_encx(rng, n):
         if rng.chance(0.3):
             pl = max(0, 4093 - lab_len(label) - el + rng.range(-3, 3))
         bl = buf_lattice(rng, pl + el, lab_len(label), big_ok=False)
+        if i % 20 == 7:
+            # around the 16-bit total length (a seeded change dropping the label length from that test went unnoticed without it)
+            pl = 65535 - 2 - lab_len(label) + rng.range(-4, 3)
+            bl = rng.choice([4097, 5000, 70000, 300, 7 + lab_len(label) + el + rng.range(0, 3)])
         c.add("EEXT %s %d %d %s %d %d %s" % (pdu_tok(rng, pl), rng.below(256), pt, label, bl, rng.below(1000), exts_tok(ch)))
         for _ in range(rng.range(0, 3)):
             c.add("EFRAGC %d %d" % (rng.choice([3, 4, 7, 8, 13, 40, 4097, 5000]), rng.below(1000)))
